@@ -332,6 +332,7 @@ fn task_body<'a>(sh: &'a Shared<'a>, ops: &'a [POp], slots: &'a [Box<dyn crate::
 pub fn run_par_phase(ex: &mut Exec, ph: &mut ParPhase) -> R {
     ex.cur_uid = ph.uid;
     ex.stats.par_phases += 1;
+    crate::util::probe_mark(&["C10", "C01", "C02"]);
     let slots = ex.slots.clone();
     let (result, st) = {
         let sh = Shared {
